@@ -336,6 +336,10 @@ PTRef Logic::getDefaultValuePTRef(SRef const sref) const {
     if (sref == sort_BOOL) {
         return term_TRUE;
     } else {
+        if (not defaultValueForSort.has(sref)) {
+            // e.g. array sorts: models are not available for them
+            throw ApiException("No default value for sort " + sortToString(sref));
+        }
         return defaultValueForSort[sref];
     }
 }
